@@ -700,6 +700,8 @@ impl CompactionWorker {
 
                         Therefore, this deletion marker is obsolete and can be dropped.
                         */
+                        #[cfg(raindb_verif)]
+                        raindb_verif_rt::probe("compaction_dropped_obsolete_tombstone");
                         should_drop_entry = true;
                     }
 
